@@ -320,6 +320,14 @@ func AllUserActions() []*UserAction {
 				return w.Raw.Delete(context.TODO(), tr)
 			},
 			After: func(mon MonState) { mon["req.exit"] = "trafficrouting-deleted" }},
+		{Name: "deleteVS", OneShot: true, NoCost: true, // the user deletes the first of two custom network objects mid-release
+			Guard: func(w *World, sc *Scenario, mon MonState) bool {
+				return sc.CustomDR && inProgress(getRollout(w, sc)) && GetVirtualService(w, sc.ns()) != nil
+			},
+			Do: func(w *World, sc *Scenario) error {
+				return w.Raw.Delete(context.TODO(), GetVirtualService(w, sc.ns()).DeepCopy())
+			},
+			After: func(mon MonState) { mon["req.deleteVS"] = "1" }},
 		{Name: "deleteCanary", OneShot: true, NoCost: true, // someone deletes the canary Deployment of a canary-style release (it turns Terminating: it carries the BatchRelease finalizer)
 			Guard: func(w *World, sc *Scenario, mon MonState) bool {
 				return inProgress(getRollout(w, sc)) && liveCanaryDeployment(w, sc) != nil
